@@ -2203,6 +2203,19 @@ static program_t *epilog ()
     }
   generate_final_program (1);
 
+  if (mem_block[A_PROGRAM].current_size > USHRT_MAX)
+    {
+      /* program_size, function addresses and branch offsets are 16 bits wide */
+      yyerror ("Program too large (more than 65535 bytes of code)");
+      if (pragmas & PRAGMA_WARNINGS)
+        remove_overload_warnings (0);
+      clean_parser ();
+      end_new_file ();
+      free_string (current_file);
+      current_file = 0;
+      return 0;
+    }
+
   size = ALIGN_SIZE (sizeof (program_t));
 
   /* delete argument information if we're not saving it */
